@@ -741,6 +741,10 @@ class C14World(PcWorld):
         pc = self.ep[n].pc
         if pc.signalingState == "closed" or self.model[n] == "closed":
             return self.skip(op)
+        if op["first"] == "setLocal:implicit" and op["second"] == "setLocal:offer":
+            # the implicit call creates an offer of its own: the one created earlier is no longer the connection's
+            # latest offer, and applying it would not be a call an application may make
+            return self.skip(op)
         first, second = self.overlap_call(n, op["first"]), self.overlap_call(n, op["second"])
         if first is None or second is None:
             return self.skip(op)
